@@ -33,7 +33,7 @@ def run_api(chk, prop, variants, san="asan", nshards=16, extra_args=None, stall_
         wd = os.path.join(chk.workdir, "b%s_h%s" % (bu, hu))
         os.makedirs(wd, exist_ok=True)
         args = ["--prop", prop, "--tier", chk.tier, "--seed", str(chk.seed)] + list(extra_args or [])
-        sr = runner.ShardRun(binary, args, wd, nshards, stall_s=stall_s, log=log)
+        sr = runner.ShardRun(binary, args, wd, nshards, stall_s=stall_s, log=log, alone_timeout=max(12.0, stall_s))
         sr.run()
         vtag = "chunk=%dB,refill=%dB" % ((bu or 0x100000) * 16, (hu or 0x80000) * 64)
         for c in sr.crashes:
